@@ -134,40 +134,29 @@ class Flow:
 
     # ------------------------------------------------------------------ pointer tables and extents
     def _pointer_tables(self):
-        """(record, field A) -> (field B, stride c over this): the constructor sets A[p] = B + c*p"""
-        tables = {}
-        this0 = sym.idx(sym.sym("this"), ZERO)
+        """(record, field A) -> (field B, stride c over this): the constructor sets A[e] = B + c*e (sa/tables.py: any loop
+        structure, walking pointers, tables built in locals and stored into the fields afterwards)"""
+        from . import tables as _tables
+        out = {}
+        this = sym.sym("this")
         for rname in self.v.records:
             ctors = [f for f in self.v.defined() if f.get("record") == rname and f.get("kind") == "ctor" and not f.get("implicit") and not f.get("copy")]
             if len(ctors) != 1:
                 continue
-            ps, _ = summ.pieces(self.v, ctors[0], hooks=NOINLINE)
-            p2f = {}
-            for p in ps:
-                if p["kind"] == "store" and not p["loops"] and p["op"] == "=" and p["lv"][0] == "fld" and p["lv"][1] == this0 and p["val"][0] == "sym":
-                    p2f.setdefault(p["val"], p["lv"])
-            for p in ps:
-                if p["kind"] != "store" or not p["loops"] or p["op"] != "=" or p["lv"][0] != "idx" or p["guards"] and False:
+            try:
+                nps, fvals, norm = _tables.normalised(self.v, ctors[0], this)
+            except Exception:
+                continue
+            fields = {p["lv"][1][2] for p in nps if p["kind"] == "store" and p["loops"] and p["lv"][0] == "idx" and p["lv"][1][0] == "fld"
+                      and p["lv"][1][1] == sym.idx(this, ZERO)}
+            for A in sorted(fields):
+                B, c, sts = _tables.table(nps, this, A)
+                if B is None:
                     continue
-                A = p["lv"][1]
-                if A[0] != "fld" or A[1] != this0:
-                    continue
-                # A[e(vars)] = &B[f(vars)] inside one or more loops (index computed or carried by walking pointers): a table
-                # with stride c when f == c * e identically (trip counts of the constructor's loops are its dimensions, >= 0)
-                e_ = sym.trip_counts_nonneg(sym.subst(p["lv"][2], p2f))
-                val = sym.trip_counts_nonneg(sym.subst(p["val"], p2f))
-                base, off = bounds.split_base_offset(val)
-                if base is None or base[0] != "fld" or base[1] != this0:
-                    continue
-                pv = p["loops"][-1]["var"]
-                le, lf = sym.linear_in(e_, pv), sym.linear_in(off, pv)
-                if le is None or lf is None or le[0] != I(1):
-                    continue
-                c = lf[0]
-                if sym.sub(off, sym.mul(c, e_)) != ZERO:
-                    continue
-                tables[(rname, A[2])] = (base[2], sym.subst(c, p2f))
-        return tables
+                # express the stride over the fields of the object (parameters copied into fields are named by the field)
+                p2f = {val: lv for lv, val in fvals.items() if isinstance(val, tuple) and val and val[0] == "sym"}
+                out[(rname, A)] = (B, sym.subst(c, p2f))
+        return out
 
     def resolve_tables(self, t, roots):
         """rewrite subscripts through constructor-built pointer tables down to the raw array"""
